@@ -200,6 +200,19 @@ package nfsv4
 //@   ensures ok-or-bad-seqid: r2 == nfsv4.NFS4_OK || r2 == nfsv4.NFS4ERR_BAD_SEQID
 //@   ensures no-transaction-on-error: r2 != nfsv4.NFS4_OK ==> r0 == nil
 
+// ---------------------------------------------------------------------------
+// NFSv4.1 slot replay cache (C19)
+
+// A duplicate of a request that is still being processed blocks on a channel;
+// that channel must have been registered with the slot, because the original
+// sends its result to exactly the registered waiters.
+//@ func (*nfs41Program).opSequence
+//@   props C19
+//@   at call recv#1 assert blocked-duplicate-is-registered:
+//@             len(slot.currentSequenceWaiters) > 0 &&
+//@             slot.currentSequenceWaiters[len(slot.currentSequenceWaiters)-1] == ch
+//@   at call recv#1 assert lock-released-before-blocking: held(p.clientsLock) == 0
+
 //@ func (*lockOwnerTransaction).complete
 //@   props C19
 //@   requires lot.state != nil && lastResponse != nil
